@@ -429,4 +429,17 @@ theorem step_log_same (own : PeerId) (s s' : Active) (op : Op) (q : PeerId)
       · simp [eventsOf, List.filter_append] at hl ⊢; rw [hl]
       · exact hl
 
+/-- the entry of peer `q` after any history is the one reached by the operations about `q` alone -/
+theorem Active.run_lookup_project (own : PeerId) (ops : List Op) (s s' : Active) (q : PeerId)
+    (hs : lookupConn s.conns q = lookupConn s'.conns q) :
+    lookupConn (s.run own ops).conns q = lookupConn (s'.run own (ops.filter (fun o => o.peer = q))).conns q := by
+  induction ops generalizing s s' with
+  | nil => simpa [Active.run] using hs
+  | cons op t ih =>
+    by_cases h : op.peer = q
+    · simp only [Active.run, List.foldl_cons, List.filter_cons, h, decide_true, if_true]
+      exact ih _ _ (step_lookup_same own s s' op q h hs)
+    · simp only [Active.run, List.foldl_cons, List.filter_cons, h, decide_false]
+      exact ih _ _ (by rw [step_lookup_ne own s op q h]; exact hs)
+
 end Anemo
